@@ -210,13 +210,20 @@ def concrete_request(shape, rnd):
     return {'method': method, 'uri': uri, 'version': version, 'headers': headers, 'body_hex': body.hex(), 'body_kind': bk}, folded
 
 
+NATIVE_IDENT = [(True, True)]      # (principal returned, session data returned) of the last native_passthrough call
+
+
 def native_passthrough(rp, j, fold):
-    nat = native_validate(rp, j, 'us-east-1', 'service', T0, provider={'result': {'signing_key_hex': '00' * 32}, 'principal_user': 'test'},
+    nat = native_validate(rp, j, 'us-east-1', 'service', T0, provider={'result': {'signing_key_hex': '00' * 32}, 'principal_user': 'test',
+                                                                         'session': {'k1': 'v1', 'k2': 'v2'}},
                           opts={'s3': False, 'url_encode_form': fold})
     res = nat.get('result', {})
     if 'ok' not in res:
         return ('err', res.get('err', res))
     o = res['ok']
+    # what the provider supplied must come back: the principal (user "test") and both session variables
+    ident = ('user_name: "test"' in o.get('principal', ''), all(x in o.get('session_data', '') for x in ('"k1": String("v1")', '"k2": String("v2")')))
+    NATIVE_IDENT[0] = ident
     return ('ok', o['method'], o['uri'], o['version'], sorted(map(tuple, o['headers'])), o['body_hex'])
 
 
@@ -224,6 +231,10 @@ def check_native(j, folded, nat):
     if nat[0] != 'ok':
         return 'refused'
     _, method, uri, version, headers, body_hex = nat
+    if not NATIVE_IDENT[0][0]:
+        return 'principal supplied by the provider not returned'
+    if not NATIVE_IDENT[0][1]:
+        return 'session data supplied by the provider not returned'
     if method != j['method'] or version != j['version']:
         return 'method/version'
     if headers != sorted((n.lower(), v) for n, v in j['headers']):
